@@ -291,17 +291,23 @@ def run(tier, seed=0, replay=None, procs=None, only=None):
     if only:
         cs = [c for c in cs if re.search(only, c.name)]
     q = tier == 'quick'
-    extra_errors, extra_ev = [], {}
-    try:
-        from harness import crosshair_helpers
-        ch = crosshair_helpers.run_splice_tuple(timeout=20 if q else 60)
-        extra_ev['crosshair_splice_tuple'] = ch
-        if ch.get('violations'):
-            extra_errors.append('crosshair reported a counterexample for splice_tuple: ' + str(ch['violations'])[:500])
-    except ImportError:
-        pass
+    extra_errors, extra_viol, extra_ev = [], [], {}
+    from harness import crosshair_helpers
+    ch = crosshair_helpers.run_splice_tuple(timeout=15 if q else 60)
+    extra_ev['crosshair_splice_tuple'] = ch
+    if ch.get('violations'):
+        t, index, vals, r = ch['violations'][0]
+        extra_viol.append(dict(case='crosshair:splice_tuple', label='splice_tuple replaces exactly the element at index by the values',
+                               inputs=dict(t=list(t), index=index, values=list(vals)), detail=f'splice_tuple returned {r}',
+                               how='CrossHair counterexample, reproduced by enumeration of the small domain on the real function'))
+    elif ch.get('status') != 'ran' or ch.get('confirmed_postconditions', 0) < 4:
+        if ch.get('crosshair_counterexamples'):
+            extra_errors.append('crosshair counterexample for splice_tuple does not reproduce: ' + str(ch)[:400])
+        else:
+            extra_ev['crosshair_note'] = 'splice_tuple not confirmed over all paths within the time budget (inconclusive, not a verdict)'
     return main_run(
         PROP, tier, cs, functions=functions(), seed=seed, procs=procs, extra_evidence=extra_ev,
+        extra_violations=extra_viol, extra_errors=extra_errors,
         bounds=dict(
             layouts=f'conventions x grid kinds x 0..{2 if q else 3} extra dimensions (sizes 4,5,1; grid 2x3 / mesh tqp) in '
                     f'{"a sample of" if q else "all (shoc_simple: every 5th)"} permutations of dimension order; winding by default '
